@@ -110,7 +110,7 @@ namespace Givaro
         Element& init(Element& r, const uint64_t a) const;
         Element& init(Element& r, const Integer& a) const;
         template<typename T> Element& init(Element& r, const T& a) const
-        { return init(r, Caster<int64_t>(a)); }
+        { return init(r, Caster<typename std::conditional<std::is_unsigned<T>::value, uint64_t, int64_t>::type>(a)); }
 
         Element& assign(Element& r, const Element& a) const;
 
